@@ -3,6 +3,7 @@ from core import enc, q
 from gen import canonical_names, basename
 
 ID = "C03"
+HEAP_SUMMARY = True      # end every program with the reference-level observation (BB.Model.Heap vs id() walk)
 LEAN_MODULE = "BB.Properties.C03"
 QUICK_N = 300
 THOROUGH_N = 6000
